@@ -847,8 +847,12 @@ fn main() {
                 let git_follows_topmost_dir = topmost_excluded_dir.map_or(false, |d| d.by == g.by);
                 let dstar_decides = doublestar_after_literal_prefix(&g.raw)
                     || m.as_ref().map_or(false, |m| doublestar_after_literal_prefix(m.pattern.to_string().as_bytes()));
-                let sig: &'static str = if dstar_decides {
-                    "doublestar-after-literal-prefix"
+                let git_pattern_is_blank_only = {
+                    let p = g.raw.strip_prefix(b"!").unwrap_or(&g.raw);
+                    !p.is_empty() && p.iter().all(u8::is_ascii_whitespace)
+                };
+                let sig: &'static str = if git_pattern_is_blank_only {
+                    "whitespace-only-pattern-dropped"
                 } else if root_is_matched {
                     "worktree-root-matched-by-global-pattern"
                 } else if git_follows_topmost_dir && ours.ignored() {
@@ -863,12 +867,15 @@ fn main() {
                 {
                     // nothing matches the path; gitoxide reports the negated pattern that matched a leading directory
                     "negated-dir-pattern-reported-for-children"
-                } else if world_has_dstar_pattern {
+                } else if dstar_decides {
+                    // one side decides by a pattern of the form `lit**...`, and none of the directory classes applies
                     "doublestar-after-literal-prefix"
                 } else if world_has_blank_only_pattern {
                     // a pattern made of blanks only (a TAB: trailing TABs are not trimmed) is dropped by gix_glob::parse;
                     // git matches a file of that name
                     "whitespace-only-pattern-dropped"
+                } else if world_has_dstar_pattern {
+                    "doublestar-after-literal-prefix"
                 } else {
                     ""
                 };
